@@ -279,9 +279,19 @@ func (s *chainSpy) Write(b []byte) (int, error) {
 	case strings.Trim(str, "x") == "":
 		s.events = append(s.events, fmt.Sprintf("x%d", len(b)))
 	case str == http.StatusText(http.StatusInternalServerError):
-		s.events = append(s.events, "P")
+		// Recovery's plain answer: the token stands for body AND Content-Type (text/plain)
+		if ct := s.Header().Get("Content-Type"); ct != "text/plain" {
+			s.events = append(s.events, "P?ct="+hx(ct))
+		} else {
+			s.events = append(s.events, "P")
+		}
 	case strings.HasPrefix(str, "<html>") && strings.Contains(str, "<h1>PANIC</h1>"):
-		s.events = append(s.events, "D")
+		// the development page: body AND Content-Type (text/html)
+		if ct := s.Header().Get("Content-Type"); ct != "text/html" {
+			s.events = append(s.events, "D?ct="+hx(ct))
+		} else {
+			s.events = append(s.events, "D")
+		}
 	default:
 		s.events = append(s.events, fmt.Sprintf("?%d", len(b)))
 	}
